@@ -108,8 +108,17 @@ def main(tier):
     # the mutex-based big-endian RMW / compare-exchange path under the controlled scheduler: two threads, same cell, every interleaving of
     # the lock/unlock operations; the linearizability oracle works on the big-endian image of the cell, so "the RMW writes the swapped
     # result" is also checked under contention (checks/c16_sched.py, big-endian cases only)
-    import c16_sched, mclib
+    import c16_sched, c17, mclib, batch
     try:
+        # memory.atomic.wait32/wait64 compare a cell: in the forced big-endian configuration that access needs its byte reversal too
+        # (the single-threaded emission probes of C17 E1, futex.c compiled for that configuration; cells are not byte palindromes)
+        dw = scratch('c19w')
+        rc, err = batch.translate(c17.module(), dw, w2c2=mclib.w2c2_binary())
+        if rc != 0:
+            raise mclib.MachineryError('w2c2 failed on the wait/notify module: ' + err)
+        nprobe = c17.run_e1(chk, dw, be=True)
+        chk.add(evaluations=nprobe)
+        parts['wait/notify probes (forced BE)'] = {'evaluations': nprobe}
         parts['big-endian RMW path under the scheduler'] = c16_sched.sched_part(chk, tier, be_only=True)
     except mclib.MachineryError as e:
         print('MACHINERY-ERROR C19: %s' % e)
